@@ -149,7 +149,10 @@ func c11PoolUnit(driver string, depth, shard, nshards int) vh.Unit {
 	ids := vh.Identities()
 	N, P1, P2, X := ids[0], ids[1], ids[2], ids[3]
 	byName := map[string]*vh.Ident{"N": N, "P1": P1, "P2": P2, "X": X}
-	evs := []string{"upd N -", "upd N P1", "upd N P1,P2", "upd N P2,X", "upd P1 -", "upd P2 -", "conn P1", "conn N"}
+	evs := []string{"upd N -", "upd N P1", "upd N P1,P2", "upd N P2,X", "upd P1 -", "upd P2 -", "conn P1", "conn N",
+		// a keep-alive that fails half-way (the ledger cannot be written): whatever it already told
+		// the store stays told, and later keep-alives are answered from the store as it is then
+		"failing-upd N P1", "failing-upd N -"}
 	evs = append(evs, "tick 59s", "tick 61s", "tick 119.999999999s", "tick 120.000000001s")
 	type world struct {
 		pw    *vh.PoolWorld
@@ -220,11 +223,23 @@ func c11PoolUnit(driver string, depth, shard, nshards int) vh.Unit {
 				elapsed := vsched.Now().Sub(w.model.Nodes[store.NodeID(id.NodeID)].LastSeen)
 				wantInactive, _ := w.model.UpdateNodePeers(store.NodeID(id.NodeID), reported, 0)
 				wantActive, _ := w.model.NodePeers(store.NodeID(id.NodeID))
+				if f[0] == "failing-upd" {
+					w.pw.BStore.FailBalanceOps = 1
+				}
 				resp, err := w.pw.Update(id, reported, 0)
+				failed := f[0] == "failing-upd" && w.pw.BStore.FailBalanceOps == 0
+				w.pw.BStore.FailBalanceOps = 0
 				if !judge {
 					return
 				}
 				u.R.Traces++
+				if failed {
+					u.Observe("failing update failed")
+					if err == nil {
+						u.Violate("pool/"+driver+"/failed-update-reported-success", fmt.Sprintf("history %v: the ledger write failed, the update returned no error", hist), vh.BFSReplay(name, hist))
+					}
+					return
+				}
 				if err != nil || resp == nil {
 					u.Violate("pool/"+driver+"/update-error", fmt.Sprintf("history %v: update failed: %v", hist, err), vh.BFSReplay(name, hist))
 					return
